@@ -287,6 +287,10 @@ func runHNSWHistory(r *rand.Rand, p hnswParams, o hnswOpts, t *Trace) *Case {
 			}
 			var res []comet.VectorResult
 			var e error
+			if r.Intn(5) == 0 { // the builder is executed twice: the second answer is the one that is judged
+				catchPanic(func() { s.Execute() })
+				t.Stat("hnsw.search_builder_reused")
+			}
 			pan := catchPanic(func() { res, e = s.Execute() })
 			code := errCode(e)
 			if pan {
